@@ -783,7 +783,7 @@ Reset(m) ==
                          !.act = [c \in Compos |-> 0], !.res = [c \in Compos |-> 0],
                          !.req = [c \in Compos |-> 0], !.oreq = [o \in Orthos |-> {}], !.rem = {}]
         m3 == DeepRequestChange(m2, 1, [k |-> "restart", i |-> 0])
-    IN UpdateActivity(DeepEnter(m3, 1))
+    IN UpdateActivity(ClearRequests(DeepEnter(m3, 1)))
 
 ---------------------------------------------------------------------------
 (* update / react / query (composite.inl, orthogonal.inl, reactions.inl)   *)
